@@ -2,7 +2,7 @@
 """Run checks against a property-breaking change WITHOUT touching /repo (used while other work is
 building against /repo; the final recorded runs apply the patch to /repo itself, see DESIGN §11).
 
-usage: seedtest.py <patch.diff> <Cxx> [<Cxx>…] [--tier quick|thorough] [--keep]
+usage: seedtest.py <patch.diff> <Cxx> [<Cxx>…] [--tier quick|thorough]   (env SEED_SLOT=<n>: use scratch worktrees /tmp/rseed<n>, /tmp/vseed<n>, so several can run in parallel)
 
 Creates (once) a scratch worktree of /repo at /tmp/rseed and a scratch worktree of /verif (HEAD of
 main) at /tmp/vseed whose harness points at /tmp/rseed; applies the patch to /tmp/rseed; runs
@@ -23,7 +23,8 @@ def main():
     if "--tier" in args:
         i = args.index("--tier"); tier = args[i + 1]; del args[i:i + 2]
     patch, props = os.path.abspath(args[0]), args[1:]
-    R, V = "/tmp/rseed", "/tmp/vseed"
+    slot = os.environ.get("SEED_SLOT", "")
+    R, V = "/tmp/rseed" + slot, "/tmp/vseed" + slot
     if not os.path.exists(R):
         sh(f"git -C /repo worktree add --detach {R} HEAD", check=True)
     sh(f"git -C {R} checkout -q --detach $(git -C /repo rev-parse HEAD) && git -C {R} checkout -- . && git -C {R} clean -fdq -e target", check=True)
@@ -33,7 +34,10 @@ def main():
     sh(f"sed -i 's|/repo/|{R}/|' {V}/harness/Cargo.toml", check=True)
     rc, out = sh(f"git -C {R} apply {patch}")
     if rc != 0:
-        print(out); sys.exit("patch does not apply")
+        rc, out = sh(f"git -C {R} apply -3 {patch}")   # context moved by a later fix: commit in /repo
+        if rc != 0:
+            print(out); sys.exit("patch does not apply")
+        sh(f"git -C {R} reset -q")
     results = {}
     for pid in props:
         rc, out = sh(f"./check {pid} --tier {tier}", cwd=V, env={"VERIF_REPO": R})
